@@ -768,16 +768,19 @@ class Unit:
                 break
         closure_arg = int(next((o.split("=", 1)[1] for o in opts if o.startswith("closure=")), "0"))
         guard = next((o.split("=", 1)[1] for o in opts if o.startswith("guard=")), None)
+        # guards=name:argno;name:argno  (an arm with several guard calls, e.g. one per branch)
+        multi = next((o.split("=", 1)[1] for o in opts if o.startswith("guards=")), None)
+        guard_list = [(g.split(":")[0], int(g.split(":")[1])) for g in multi.split(";")] if multi else ([(guard, closure_arg)] if closure_arg else [])
         new_expr = expr
-        if closure_arg:
+        for (gname, argno) in guard_list:
             etoks = lex(new_expr)
-            gi = next((q for q, t in enumerate(etoks) if t.kind == "id" and t.text == guard), None)
+            gi = next((q for q, t in enumerate(etoks) if t.kind == "id" and t.text == gname), None)
             if gi is None:
-                raise AnchorLost("%s: arm Request::%s does not call `%s` (the guard this contract is about)" % (rel, variant, guard))
+                raise AnchorLost("%s: arm Request::%s does not call `%s` (the guard this contract is about)" % (rel, variant, gname))
             op = gi + 1
             while etoks[op].kind not in CODE: op += 1
             if etoks[op].text != "(":
-                raise AnchorLost("%s: arm Request::%s: `%s` is not called" % (rel, variant, guard))
+                raise AnchorLost("%s: arm Request::%s: `%s` is not called" % (rel, variant, gname))
             cl = match_close(etoks, op)
             args, cur, depth = [], [], 0
             for q in range(op + 1, cl):
@@ -789,14 +792,17 @@ class Unit:
                 else:
                     cur.append(t)
             if any(t.kind in CODE for t in cur): args.append(cur)
-            if closure_arg > len(args):
-                raise AnchorLost("%s: arm Request::%s: guard call has %d argument(s), closure=%d" % (rel, variant, len(args), closure_arg))
-            dropped = re.sub(r"\s+", " ", toks_text(args[closure_arg - 1]))[:300]
+            if argno > len(args):
+                raise AnchorLost("%s: arm Request::%s: call of `%s` has %d argument(s), closure argument %d" % (rel, variant, gname, len(args), argno))
+            dropped = re.sub(r"\s+", " ", toks_text(args[argno - 1]))[:300]
             self.dropped.append("arm Request::%s (%s:%d): R10 closure literal handed to `%s` replaced by the abstract closure `opp`; dropped text: %s" % (
-                variant, rel, src_line, guard, dropped))
-            args[closure_arg - 1] = [Tok("p", " opp", 0, 0)]
+                variant, rel, src_line, gname, dropped))
+            args[argno - 1] = [Tok("p", " opp", 0, 0)]
             new_expr = toks_text(etoks[:op + 1]) + ",".join(toks_text(a) for a in args) + toks_text(etoks[cl:])
             self.counts.add("R10.arm-closure-abstracted")
+        closure_arg = 1 if guard_list else 0
+        if guard is None and guard_list:
+            guard = guard_list[0][0]
         new_expr = rewrite_builtin(new_expr, self.counts, mutable=("mutclient" in opts))
         if "strfrom" in opts:
             new_expr = apply_literal_rewrite(new_expr, "String::from(", "shim_string_from(", -1, self.counts, name_hint(variant))
